@@ -172,7 +172,50 @@ def variant_noise2(src, fn):
     return apply_edits(src, sorted(set(edits)))
 
 
-KINDS = {"rename": variant_rename, "flipcmp": variant_flipcmp, "noise": variant_noise, "noise2": variant_noise2}
+def variant_swapif(src, fn):
+    """`if c: A else: B` -> `if not (c): B else: A` for every plain two-way if of the function (outermost only)"""
+    lines = src.splitlines(keepends=True)
+    edits = []
+    taken = []
+    for n in ast.walk(fn):
+        if not (isinstance(n, ast.If) and n.orelse):
+            continue
+        if len(n.orelse) == 1 and isinstance(n.orelse[0], ast.If) and n.orelse[0].col_offset == n.col_offset:
+            continue
+        # must not be itself an elif branch
+        hdr = lines[n.lineno - 1]
+        if not hdr[n.col_offset:].startswith("if "):
+            continue
+        if any(a <= n.lineno <= b for a, b in taken):
+            continue
+        b0, b1 = n.body[0].lineno, n.body[-1].end_lineno
+        e0, e1 = n.orelse[0].lineno, n.orelse[-1].end_lineno
+        else_line = e0 - 1
+        while else_line > b1 and not lines[else_line - 1].strip().startswith("else"):
+            else_line -= 1
+        if else_line <= b1 or lines[else_line - 1].strip() != "else:":
+            continue
+        if n.test.end_lineno != n.lineno and False:
+            continue
+        test_txt = ast.get_source_segment(src, n.test)
+        if test_txt is None:
+            continue
+        # comments between body and else belong to neither; keep simple: require contiguous
+        body_txt = "".join(lines[b0 - 1:else_line - 1])
+        else_txt = "".join(lines[else_line:e1])
+        head_end = n.body[0].lineno - 1
+        first_body_line = b0
+        # header may span several lines: header = lines[n.lineno-1 : b0-1]
+        ind = " " * n.col_offset
+        new = ind + "if not (" + test_txt + "):\n" + else_txt + ind + "else:\n" + body_txt
+        edits.append((n.lineno, 0, e1 + 1 if e1 < len(lines) else e1, 0 if e1 < len(lines) else len(lines[e1 - 1]), new))
+        taken.append((n.lineno, e1))
+    if not edits:
+        return None
+    return apply_edits(src, edits)
+
+
+KINDS = {"swapif": variant_swapif, "rename": variant_rename, "flipcmp": variant_flipcmp, "noise": variant_noise, "noise2": variant_noise2}
 
 
 def job(args):
